@@ -14,7 +14,7 @@ except OSError:
 verdict = {0: 'missed', 1: 'caught', 3: 'patch-does-not-apply', 4: 'build-failed'}.get(rc, f'inconclusive(exit {rc})')
 entry = {'check': f'./check {prop} {tier}', 'seed': int(seed), 'exit': rc, 'verdict': verdict,
          'top_signatures': [{'signature': s, 'times': n} for s, n in sigs.most_common(6)]}
-p = f'/verif/seeded/{sid}/meta.json'
+p = f'/verif/{sid}/meta.json' if '/' in sid else f'/verif/seeded/{sid}/meta.json'
 meta = json.load(open(p))
 ran = [r for r in meta.get('ran', []) if not (r.get('check') == entry['check'] and r.get('seed') == entry['seed'])]
 ran.append(entry)
